@@ -1,0 +1,167 @@
+//go:build verif
+
+package statet
+
+// Contracts for package statet (fp.StateT[S, A] = func(S) (fp.Try[A], S)), checked by /verif/govc.
+// Comment-only file.  A StateT program is a function: every lemma runs the programs it compares on an
+// arbitrary start state s (a lemma parameter) and compares (result, final state) -- packed by
+// verifspec.P2 -- and, with EqT, the sequence of user callbacks / sub-programs that were run.
+
+// unit.Success and fp.ErrOptionEmpty are package-level variables; the lemmas that depend on them state
+// their initial value as an assumption (requires unit.Success.IsSuccess() / fp.ErrOptionEmpty != nil).
+
+//@ import "github.com/csgura/fp/try"
+//@ import "github.com/csgura/fp/unit"
+//@ import "github.com/csgura/fp/option"
+
+// ---- FlatMap: state flows left to right; a failure stops the program ---------------------------
+
+//@ lemma flatMapSuccess[S, A, B any](st fp.StateT[S, A], f func(A) fp.StateT[S, B], s S)
+//@   prop C17 C01
+//@   requires verifspec.P2(st(s)).A.IsSuccess()
+//@   ensures EqT(verifspec.P2(FlatMap(st, f)(s)), verifspec.P2(func() (fp.Try[B], S) { a, ns := st(s); return f(a.Get())(ns) }()))
+//
+//@ lemma flatMapFailure[S, A, B any](st fp.StateT[S, A], f func(A) fp.StateT[S, B], s S)
+//@   prop C17 C02
+//@   requires verifspec.P2(st(s)).A.IsFailure()
+//@   ensures EqT(verifspec.P2(FlatMap(st, f)(s)), verifspec.P2(func() (fp.Try[B], S) { a, ns := st(s); return try.Failure[B](a.Failed().Get()), ns }()))
+//@   tag failure-state-and-no-continuation
+
+// ---- primitives, by their statement ------------------------------------------------------------
+
+//@ lemma putDef[S any](s0 S, s S)
+//@   prop C17
+//@   requires unit.Success.IsSuccess()
+//@   ensures Eq(verifspec.P2(Put(s0)(s)), verifspec.P2(try.Success(fp.Unit{}), s0))
+//
+//@ lemma getDef[S any](s S)
+//@   prop C17
+//@   ensures Eq(verifspec.P2(Get[S]()(s)), verifspec.P2(try.Success(s), s))
+//
+//@ lemma modifyDef[S any](f func(S) S, s S)
+//@   prop C17
+//@   requires unit.Success.IsSuccess()
+//@   ensures EqT(verifspec.P2(Modify(f)(s)), verifspec.P2(try.Success(fp.Unit{}), f(s)))
+//
+//@ lemma modifySDef[S, A any](fss func(S) S, fsa func(S) A, s S)
+//@   prop C17
+//@   ensures EqT(verifspec.P2(ModifyS(fss, fsa)(s)), verifspec.P2(try.Success(fsa(s)), fss(s)))
+//
+//@ lemma mergeDef[S, A any](fss func(S) S, fsa func(S) A, s S)
+//@   prop C17
+//@   ensures EqT(verifspec.P2(Merge(fss, fsa)(s)), verifspec.P2(try.Success(fsa(s)), fss(s)))
+//@   ensures EqT(verifspec.P2(Merge(fss, fsa)(s)), verifspec.P2(ModifyS(fss, fsa)(s)))
+//
+//@ lemma modifyTDef[S any](f func(S) fp.Try[S], s S)
+//@   prop C17 C02
+//@   requires unit.Success.IsSuccess()
+//@   ensures f(s).IsSuccess() ==> EqT(verifspec.P2(ModifyT(f)(s)), verifspec.P2(try.Success(fp.Unit{}), f(s).Get()))
+//@   ensures f(s).IsFailure() ==> EqT(verifspec.P2(ModifyT(f)(s)), verifspec.P2(try.Failure[fp.Unit](f(s).Failed().Get()), s))
+//
+//@ lemma getSDef[S, A any](f func(S) A, s S)
+//@   prop C17
+//@   ensures EqT(verifspec.P2(GetS(f)(s)), verifspec.P2(try.Success(f(s)), s))
+//
+//@ lemma getSTDef[S, A any](f func(S) fp.Try[A], s S)
+//@   prop C17
+//@   ensures EqT(verifspec.P2(GetST(f)(s)), verifspec.P2(f(s), s))
+//
+//@ lemma pureDef[S, A any](a A, s S)
+//@   prop C17 C01
+//@   ensures Eq(verifspec.P2(Pure[S](a)(s)), verifspec.P2(try.Success(a), s))
+//
+//@ lemma fromTryDef[S, A any](t fp.Try[A], s S)
+//@   prop C17
+//@   ensures Eq(verifspec.P2(FromTry[S](t)(s)), verifspec.P2(t, s))
+//
+//@ lemma putWithDef[S, V any](w func(S, V) S, v V, s S)
+//@   prop C17
+//@   requires unit.Success.IsSuccess()
+//@   ensures EqT(verifspec.P2(PutWith(w)(v)(s)), verifspec.P2(try.Success(fp.Unit{}), w(s, v)))
+//
+//@ lemma runDef[S, A any](f func(S) (A, S), s S)
+//@   prop C17
+//@   ensures EqT(verifspec.P2(Run(f)(s)), verifspec.P2(func() (fp.Try[A], S) { a, ns := f(s); return try.Success(a), ns }()))
+//
+//@ lemma withStateDef[S, A any](f func(S) fp.StateT[S, A], s S)
+//@   prop C17
+//@   ensures EqT(verifspec.P2(WithState(f)(s)), verifspec.P2(f(s)(s)))
+//
+//@ lemma flatMapConstDef[S, A, B any](st fp.StateT[S, A], next fp.StateT[S, B], s S)
+//@   prop C17 C01 C02
+//@   ensures EqT(verifspec.P2(FlatMapConst(st, next)(s)), verifspec.P2(FlatMap(st, func(_ A) fp.StateT[S, B] { return next })(s)))
+//
+//@ lemma apTryDef[S, A, B any](st fp.StateT[S, fp.Func1[A, B]], a fp.Try[A], s S)
+//@   prop C17 C02
+//@   ensures EqT(verifspec.P2(ApTry(st, a)(s)), verifspec.P2(FlatMap(st, func(f fp.Func1[A, B]) fp.StateT[S, B] { return FlatMap(FromTry[S](a), func(x A) fp.StateT[S, B] { return Pure[S](f(x)) }) })(s)))
+//
+//@ lemma apOptionDef[S, A, B any](st fp.StateT[S, fp.Func1[A, B]], a fp.Option[A], s S)
+//@   prop C17 C02
+//@   requires fp.ErrOptionEmpty != nil
+//@   ensures a.IsDefined() ==> EqT(verifspec.P2(ApOption(st, a)(s)), verifspec.P2(FlatMap(st, func(f fp.Func1[A, B]) fp.StateT[S, B] { return Pure[S](f(a.Get())) })(s)))
+//@   ensures !a.IsDefined() ==> EqT(verifspec.P2(ApOption(st, a)(s)), verifspec.P2(FlatMap(st, func(f fp.Func1[A, B]) fp.StateT[S, B] { return FromTry[S](try.Failure[B](fp.ErrOptionEmpty)) })(s)))
+//@   ensures EqT(verifspec.P2(ApOption(st, a)(s)), verifspec.P2(ApTry(st, try.FromOption(a))(s)))
+//
+//@ lemma transformDef[S, A, B any](st fp.StateT[S, A], f func(S, fp.Try[A]) (S, fp.Try[B]), s S)
+//@   prop C17
+//@   ensures EqT(verifspec.P2(Transform(st, f)(s)), verifspec.P2(func() (fp.Try[B], S) { a, ns := st(s); nns, b := f(ns, a); return b, nns }()))
+//
+//@ lemma transformWithDef[S, A, B any](st fp.StateT[S, A], f func(fp.Try[A]) fp.StateT[S, B], s S)
+//@   prop C17
+//@   ensures EqT(verifspec.P2(TransformWith(st, f)(s)), verifspec.P2(func() (fp.Try[B], S) { a, ns := st(s); return f(a)(ns) }()))
+//
+//@ lemma mapWithStateDef[S, A, B any](st fp.StateT[S, A], f func(S, A) B, s S)
+//@   prop C17 C02
+//@   ensures EqT(verifspec.P2(MapWithState(st, f)(s)), verifspec.P2(FlatMap(st, func(a A) fp.StateT[S, B] { return GetS(func(ns S) B { return f(ns, a) }) })(s)))
+//
+//@ lemma mapTDef[S, A, B any](st fp.StateT[S, A], f func(A) fp.Try[B], s S)
+//@   prop C17 C02
+//@   ensures EqT(verifspec.P2(MapT(st, f)(s)), verifspec.P2(FlatMap(st, func(a A) fp.StateT[S, B] { return FromTry[S](f(a)) })(s)))
+//
+//@ lemma mapWithStateTDef[S, A, B any](st fp.StateT[S, A], f func(S, A) fp.Try[B], s S)
+//@   prop C17 C02
+//@   ensures EqT(verifspec.P2(MapWithStateT(st, f)(s)), verifspec.P2(FlatMap(st, func(a A) fp.StateT[S, B] { return GetST(func(ns S) fp.Try[B] { return f(ns, a) }) })(s)))
+//
+//@ lemma peekStateDef[S, A any](st fp.StateT[S, A], f func(S), s S)
+//@   prop C17
+//@   ensures EqT(verifspec.P2(PeekState(st, f)(s)), verifspec.P2(func() (fp.Try[A], S) { a, ns := st(s); f(ns); return a, ns }()))
+
+// ---- state laws ----------------------------------------------------------------------------------
+
+//@ lemma putGet[S any](s0 S, s S)
+//@   prop C17
+//@   requires unit.Success.IsSuccess()
+//@   ensures Eq(verifspec.P2(FlatMap(Put(s0), func(_ fp.Unit) fp.StateT[S, S] { return Get[S]() })(s)), verifspec.P2(try.Success(s0), s0))
+//
+//@ lemma getPut[S any](s S)
+//@   prop C17
+//@   requires unit.Success.IsSuccess()
+//@   ensures Eq(verifspec.P2(FlatMap(Get[S](), Put[S])(s)), verifspec.P2(try.Success(fp.Unit{}), s))
+//
+//@ lemma putPut[S any](s1 S, s2 S, s S)
+//@   prop C17
+//@   requires unit.Success.IsSuccess()
+//@   ensures Eq(verifspec.P2(FlatMap(Put(s1), func(_ fp.Unit) fp.StateT[S, fp.Unit] { return Put(s2) })(s)), verifspec.P2(Put(s2)(s)))
+//@   ensures Eq(verifspec.P2(FlatMap(Put(s1), func(_ fp.Unit) fp.StateT[S, fp.Unit] { return Put(s2) })(s)), verifspec.P2(try.Success(fp.Unit{}), s2))
+//
+//@ lemma getGet[S any](s S)
+//@   prop C17
+//@   ensures Eq(verifspec.P2(FlatMap(Get[S](), func(a S) fp.StateT[S, fp.Tuple2[S, S]] { return FlatMap(Get[S](), func(b S) fp.StateT[S, fp.Tuple2[S, S]] { return Pure[S](fp.Tuple2[S, S]{I1: a, I2: b}) }) })(s)), verifspec.P2(try.Success(fp.Tuple2[S, S]{I1: s, I2: s}), s))
+//
+//@ lemma modifyLaw[S any](f func(S) S, s S)
+//@   prop C17
+//@   requires unit.Success.IsSuccess()
+//@   ensures EqT(verifspec.P2(Modify(f)(s)), verifspec.P2(FlatMap(Get[S](), func(x S) fp.StateT[S, fp.Unit] { return Put(f(x)) })(s)))
+//
+//@ lemma threeSteps[S, A, B any](ma fp.StateT[S, A], mb fp.StateT[S, B], s S)
+//@   prop C17 C02
+//@   ensures EqT(verifspec.P2(Zip(ma, mb)(s)), verifspec.P2(func() (fp.Try[fp.Tuple2[A, B]], S) {
+//@     a, s1 := ma(s);
+//@     if a.IsFailure() { return try.Failure[fp.Tuple2[A, B]](a.Failed().Get()), s1 };
+//@     b, s2 := mb(s1);
+//@     if b.IsFailure() { return try.Failure[fp.Tuple2[A, B]](b.Failed().Get()), s2 };
+//@     return try.Success(fp.Tuple2[A, B]{I1: a.Get(), I2: b.Get()}), s2 }()))
+
+// ---- the generated family: defining equations in terms of FlatMap and Pure --------------------
+
+//@ include internal/verifspec/statemonad.contracts
